@@ -645,7 +645,9 @@ class Image:
             full_coordinate = np.zeros(self.space_dim, dtype=float)
             full_coordinate["xyz"[: self.space_dim].find(axis)] = cut
             cut_voxel = self.coordinatesystem.voxel(full_coordinate)
-            axis = darsia.to_matrix_indexing(axis, "xyz"[: self.space_dim])
+            axis = "ijk".find(
+                darsia.to_matrix_indexing(axis, "xyz"[: self.space_dim])
+            )
             cut = cut_voxel[axis]
 
         # Make auxiliary use of axis averaging for formatting
